@@ -13,7 +13,7 @@
    grants and the deferred, contents-first item pass agree), links and everything else are untouched. *)
 From stdpp Require Import gmap.
 From Coq Require Import List NArith.
-From RV Require Import Base.Str Path.Helpers Path.Expand Chmod.Sym Chmod.SymFacts Memfs.State Memfs.Ops Memfs.Walk Memfs.WalkOps Memfs.ChmodFacts Memfs.Wf Memfs.LinkFacts Memfs.ChmodExact.
+From RV Require Import Base.Str Path.Helpers Path.Expand Chmod.Sym Chmod.SymFacts Chmod.SymIndep Memfs.State Memfs.Ops Memfs.Walk Memfs.WalkOps Memfs.ChmodFacts Memfs.Wf Memfs.LinkFacts Memfs.ChmodExact Memfs.Spec Memfs.Refine Memfs.RefineChmod Memfs.RefineChmodSym.
 Local Open Scope N_scope.
 
 (* any number of well-formed clauses: every applicable clause is applied, in order *)
@@ -119,3 +119,21 @@ Theorem C11_chmod_nofollow_exact : forall env m s o p r, WF m -> ch_follow o = f
     m_data m' = m_data m /\ m_cwd m' = m_cwd m /\ m_root m' = m_root m.
 Proof. exact chmod_nofollow_exact. Qed.
 Print Assumptions C11_chmod_nofollow_exact.
+
+(* whether an expression is accepted, and with which error it is rejected, does not depend on the entry: a malformed expression is rejected
+   for every entry alike (so nothing is changed anywhere), well-formedness is a property of the text *)
+Theorem C11_sym_mode_shape : forall k k' m m' octal sym, same_shape (sym_mode k m octal sym) (sym_mode k' m' octal sym).
+Proof. exact sym_mode_shape. Qed.
+Print Assumptions C11_sym_mode_shape.
+
+Theorem C11_sym_mode_error_indep : forall k k' m m' octal sym e, sym_mode k m octal sym = inr e -> sym_mode k' m' octal sym = inr e.
+Proof. exact sym_mode_error_indep. Qed.
+Print Assumptions C11_sym_mode_error_indep.
+
+(* chmod without follow against the reference tree, octal or symbolic: every non-link node at or below the argument gets the grammar's value
+   for its kind and mode, under guards decidable on the tree (expression accepted; no node's value is 0) *)
+Theorem C11_chmod_sym_refines : forall env m s o p r, WF m -> kinds_ok m -> ch_follow o = false -> chmod_accepts o = true -> chmod_vals_ok (abs m) o = true ->
+  resolve env m s = inl p -> m_ents m !! p = Some r ->
+  exists m', chmod_op env m s o = Done (m', inl tt) /\ abs m' = spec_chmod_sym (abs m) p o.
+Proof. exact chmod_sym_refines. Qed.
+Print Assumptions C11_chmod_sym_refines.
